@@ -6,6 +6,11 @@ so that a hang is the outcome `hang` of one case):
   e2e      real App.Run, one component with one tagged field (value / prop / prefix / wire), RawLoader config
   strconv  strconv2.ParseAny / FormatAny against Model/Strconv.v
   format   values read back from the real Configure: validates the generator's path -> value table and format_any
+
+Facts probe (every run): `value:"${k}"` with `k: 1000000.0` through a real App.Run; the TagVal right after the ${} processor
+tells which variant of the callback the tree has - "1e+06" (strconv2.FormatAny, unrepaired) or "1000000" (repair D-C17g,
+strconv.FormatFloat(f,'f',-1,64)).  The model (Placeholder.resolve fx) is evaluated for that variant; any third answer
+fails the check (no-failing-input-found).
 """
 import json
 import os
@@ -19,10 +24,13 @@ MANIFEST = {
             "one step replaces the leftmost innermost placeholder in place (strings.Replace hits the match), by the configured "
             "value when present else the default; the loop computes the denotation of the tag AST; it terminates (budget after "
             "repair D-C16, naturally when values carry no '{' or no '$'); the unrepaired loop diverges (refuted witness). Tied to "
-            "the code on every run by vm_compute correspondence against el.ReplaceAllContent, strconv2 and real App.Run starts",
+            "the code on every run by vm_compute correspondence against el.ReplaceAllContent, strconv2 and real App.Run starts. "
+            "The callback's rendering of a value is a parameter fx of the model (false: strconv2.FormatAny; true: repair D-C17g, "
+            "a float64 in plain digits); all theorems hold for both, the variant of the tree is read off the running code each run",
     "design_ref": "DESIGN.md 5 C16",
     "note": "trusted: Coq kernel + vm_compute; hand-written model of el.go, the ${} callback, strconv2.ParseAny/FormatAny "
-            "(fragment predicate text_in_fragment); Go driver with child processes; Python generators; Configure.Get is "
+            "(fragment predicate text_in_fragment); Go driver with child processes; Python generators; the facts probe that "
+            "selects the variant of the ${} callback (one real App.Run); Configure.Get is "
             "represented by a path->value table built by the generator and validated against the real Configure each run",
     "technique": "Rocq proof (induction over byte lists / nested tag AST, fuel discharged by the budget) + vm_compute correspondence",
 }
@@ -227,6 +235,60 @@ NONCANON = [("007", "a"), ("1.10", "a"), ("+5", "a"), ("1000000", "a"), ("00", "
             ("'", "e"), ("\"", "e")]
 
 
+# float64 values on which %v and FormatFloat(f,'f',-1,64) differ (exponent form from 1e6 on and below 1e-4), with
+# the boundaries on both sides; at most 15 significant digits (Model/Strconv.v dec_ok)
+BIG_SMALL = [(1, 6), (1, 7), (25, 5), (-1, 6), (1234567, 0), (1234567895, -1), (-1234567895, -1), (1, 15), (123456789012345, 0),
+             (123456789012345, 3), (1, 20), (1, 21), (1, 22), (-5, 21), (12, 20), (999999, 0), (9999995, -1), (1, -4), (1, -5),
+             (-1, -5), (5, -7), (25, -6), (123, -9), (1, -10), (99999, -9), (123456789012345, -20), (1, 100), (1, -100)]
+
+
+def gen_float_case(rng, cid):
+    """e2e: float64 values of large / small magnitude under known keys, placeholders that use them (plain, with a default,
+    as a parsed default, nested in a default, inside longer text)"""
+    tree = {}
+    keys = ["f%d" % i for i in range(rng.randint(1, 4))]
+    for k in keys:
+        tree[k] = norm_dec(*rng.choice(BIG_SMALL))
+    if rng.random() < 0.4:
+        tree["m"] = {"x": norm_dec(*rng.choice(BIG_SMALL)), "l": [norm_dec(*rng.choice(BIG_SMALL)), 1]}
+        keys += ["m.x", "m.l.0"]
+    if rng.random() < 0.3:
+        tree["w"] = rng.choice(WORDS)
+        keys.append("w")
+    ast = []
+    for _ in range(rng.randint(1, 3)):
+        r = rng.random()
+        k = rng.choice(keys)
+        if r < 0.45:
+            node = ["ph", [["lit", k]]]
+        elif r < 0.6:
+            node = ["ph", [["lit", k + ":" + rng.choice(["d", "7", "1000000"])]]]
+        elif r < 0.8:
+            # an absent key whose default is a number text that ParseAny reads as a float64
+            m, e = rng.choice(BIG_SMALL)
+            node = ["ph", [["lit", "nope:" + dec_text(m, e)[:-2 if e >= 0 else None]]]]
+        else:
+            node = ["ph", [["lit", "nope:"], ["ph", [["lit", k]]]]]
+        if rng.random() < 0.5:
+            ast.append(["lit", rng.choice(["p", "x ", "=", "v:"])])
+        ast.append(node)
+    if rng.random() < 0.3:
+        ast.append(["lit", rng.choice(["q", " y", "."])])
+    tagkey = rng.choices(["value", "prop", "prefix"], [6, 2, 1])[0]
+    ftype = rng.choice(["string", "string", "any", "int", "strs"])
+    if tagkey == "prop":
+        ph = [p for p in ast if p[0] == "ph"][0]
+        ast = [ph]
+        text = render(ph[1])
+    else:
+        text = render(ast)
+    if tagkey == "prefix":
+        ftype = rng.choice(["string", "any"])
+    args = rng.choice(["", ",required=false", ",required=false"])
+    return {"id": cid, "kind": "e2e", "sig": "$", "config": cfg_json(tree), "tree": tree, "tagkey": tagkey,
+            "tagtext": hx(text + args), "ftype": ftype, "deps": [], "ast": ast, "stream": "floats", "noncanon": None}
+
+
 def gen_tree(rng, with_ph=True, circ=False):
     """a configuration tree with lower-case keys"""
 
@@ -241,7 +303,7 @@ def gen_tree(rng, with_ph=True, circ=False):
         if r < 0.55:
             return rng.choice([0, 1, 7, -3, 8080, 65535, 1000000, 123456789, 2 ** 31, -2 ** 63, 2 ** 63 - 1, 2 ** 53, 99999])
         if r < 0.65:
-            return norm_dec(*rng.choice([(15, -1), (25, -2), (-5, -1), (1, -3), (123456, -2), (1, 6), (314159, -5), (1, -5)]))
+            return norm_dec(*rng.choice([(15, -1), (25, -2), (-5, -1), (1, -3), (123456, -2), (1, 6), (314159, -5), (1, -5)] + BIG_SMALL))
         if r < 0.72:
             return rng.choice([True, False])
         if r < 0.78:
@@ -532,6 +594,17 @@ def corpus():
                "stream": "ast", "noncanon": None,
                "ast": [ph(lit("nope:http://h:80/p")), lit("|"), ph(lit("a."), ph(lit("zz:b")), lit(":x:y")), lit("|"),
                        ph(lit("zz:"), ph(lit("a.b")), lit(":w"))]})
+    # float64 values spliced by the ${} callback (the stage repaired by D-C17g): %v writes 1e+06 / 1e+21 / 1e-05 /
+    # 1.234567895e+08, the repaired callback 1000000 / 1000000000000000000000 / 0.00001 / 123456789.5
+    ftree = {"a": norm_dec(1, 6), "b": norm_dec(1, 21), "c": norm_dec(1, -5), "d": norm_dec(1234567895, -1), "e": norm_dec(999999, 0)}
+    cs.append({"kind": "e2e", "sig": "$", "tree": {"a": norm_dec(1, 6)}, "tagkey": "value", "tagtext": hx("${a}"), "ftype": "string",
+               "deps": [], "ast": [ph(lit("a"))], "stream": "floats", "noncanon": None, "name": "D-C17g witness: float64 1000000"})
+    cs.append({"kind": "e2e", "sig": "$", "tree": ftree, "tagkey": "value", "tagtext": hx("${a}|${b}|${c}|${d}|${e}|${nope:${a}},required=false"),
+               "ftype": "string", "deps": [], "stream": "floats", "noncanon": None,
+               "ast": [ph(lit("a")), lit("|"), ph(lit("b")), lit("|"), ph(lit("c")), lit("|"), ph(lit("d")), lit("|"), ph(lit("e")), lit("|"),
+                       ph(lit("nope:"), ph(lit("a")))]})
+    cs.append({"kind": "e2e", "sig": "$", "tree": ftree, "tagkey": "prop", "tagtext": hx("b,required=false"), "ftype": "any",
+               "deps": [], "ast": [ph(lit("b"))], "stream": "floats", "noncanon": None})
     # known-finding witnesses (one per class)
     for d, cls in [("007", "a"), ("1000000", "a"), ("TRUE", "b"), ("'q'", "c"), ("[a,b]", "d"), ("map[a:b]", "d"), ("'", "e")]:
         cs.append({"kind": "e2e", "sig": "$", "tree": {"a": 1}, "tagkey": "value", "tagtext": hx("${nope:%s},required=false" % d), "ftype": "string",
@@ -580,9 +653,31 @@ def coq_cfg(tbl):
     return "[" + "; ".join("(%s, %s)" % (coq_b(k), coq_val(v)) for k, v in tbl.items()) + "]"
 
 
-def mk_term(cid, kind, sig, table, cfg, cin, ast, strict, obs, vobs):
-    return "mkCase %d %d %d%%N %s %s %s %s %s %s %s" % (
-        cid, kind, ord(sig), table, cfg, coq_b(cin), ast, "true" if strict else "false", obs, vobs)
+def mk_term(cid, kind, sig, table, cfg, cin, ast, strict, obs, vobs, fix=False):
+    return "mkCase %d %d %d%%N %s %s %s %s %s %s %s %s" % (
+        cid, kind, ord(sig), table, cfg, coq_b(cin), ast, "true" if strict else "false", obs, vobs, "true" if fix else "false")
+
+
+SPLICE_VARIANTS = {"1e+06": False, "1000000": True}
+
+
+def probe_float_splice(ctx, binp):
+    """facts: which variant of the ${} callback does the tree under test have?  One real App.Run with `k: 1000000.0` and
+    a string field tagged value:"${k}"; the TagVal right after the ${} processor is read.  Returns (fix, text)."""
+    probe = {"id": 1, "kind": "e2e", "sig": "$", "config": cfg_json({"k": norm_dec(1, 6)}), "tagkey": "value",
+             "tagtext": hx("${k}"), "ftype": "string", "deps": []}
+    rc, res, raw = vlib.run_json(binp, {"cases": [probe], "timeout_ms": 20000}, timeout=300)
+    got = None
+    if res is not None and len(res.get("outs") or []) == 1:
+        o = res["outs"][0]
+        if o.get("outcome") == "done" and o.get("preseen"):
+            got = unhx(o.get("out", "")).decode("utf-8", "replace")
+        else:
+            got = "<outcome %s>" % o.get("outcome")
+    if got not in SPLICE_VARIANTS:
+        raise vlib.GoBuildError("./cmd/c16 (facts)", "value:\"${k}\" with k: 1000000.0 left TagVal %r after the ${} processor; the model "
+                                "knows \"1e+06\" (strconv2.FormatAny, unrepaired callback) and \"1000000\" (repair D-C17g)" % (got,))
+    return SPLICE_VARIANTS[got], got
 
 
 def run_driver(ctx, binp, cases, tag):
@@ -597,6 +692,7 @@ def evaluate(ctx, binp, cases, tag):
     """returns by_id, M, V, counters"""
     outs = run_driver(ctx, binp, cases, tag)
     ctx.log("driver ran %d cases (%s)" % (len(cases), tag))
+    fix = ctx.float_fix
     terms, by_id = [], {}
     harness_mismatch = []
     nev = 0
@@ -625,7 +721,7 @@ def evaluate(ctx, binp, cases, tag):
                 cin = cin.encode()
             else:
                 cin = unhx(o.get("tagstr", ""))
-            terms.append(mk_term(c["id"], 1, "$", "[]", coq_cfg(tbl), cin, coq_ast(c["ast"]), True, coq_outcome(o), "VNull"))
+            terms.append(mk_term(c["id"], 1, "$", "[]", coq_cfg(tbl), cin, coq_ast(c["ast"]), True, coq_outcome(o), "VNull", fix))
             by_id[c["id"]] = desc
             nev += 1
         elif kind == "strconv":
@@ -656,16 +752,22 @@ def evaluate(ctx, binp, cases, tag):
     random.Random(len(terms)).shuffle(terms)         # spread the expensive (budget-exhausting) cases over the shards
     out = vlib.coq_eval_sharded(ctx, "cases_c16_" + tag, HEADER, terms,
                                 {"M": "mismatches", "V": "violations", "NT": "count_nontrivial", "ST": "count_strict",
-                                 "FR": "count_infrag", "KC": "kf_codes"}, shard=160)
+                                 "FR": "count_infrag", "FE": "count_float_eform", "KC": "kf_codes"}, shard=160)
     for i in range(0, len(out["KC"]) - 1, 2):
         by_id[out["KC"][i]].setdefault("used_noncanonical_default_classes", []).append(out["KC"][i + 1])
     M = sorted(set(out["M"]) | set(harness_mismatch))
-    return by_id, M, out["V"], {"nt": sum(out["NT"]), "strict": sum(out["ST"]), "infrag": sum(out["FR"]), "evals": nev}
+    return by_id, M, out["V"], {"nt": sum(out["NT"]), "strict": sum(out["ST"]), "infrag": sum(out["FR"]), "evals": nev,
+                                "eform": sum(out["FE"])}
 
 
 def run(ctx):
     static_ok = vlib.static_obligations(ctx)
     binp = vlib.go_build(ctx, "./cmd/c16")
+    ctx.float_fix, splice = probe_float_splice(ctx, binp)
+    ctx.oblige("facts: the tree's ${} callback is one of the two modelled variants (a float64 spliced as strconv2.FormatAny "
+               "writes it = unrepaired, or in plain digits = repair D-C17g)", True,
+               "value:\"${k}\" with k: 1000000.0 gives TagVal %r; D-C17g applied: %s" % (splice, ctx.float_fix))
+    ctx.log("facts: float64 splice %r -> model variant fx=%s" % (splice, ctx.float_fix))
     rng = ctx.rng
     cases = [dict(c, id=i + 1) for i, c in enumerate(corpus())]
     gen = []
@@ -676,6 +778,7 @@ def run(ctx):
             cases = [dict(rc, id=1)]
     else:
         n_raw, n_dast, n_e2e, n_sc, n_fmt = (1400, 700, 360, 800, 30) if ctx.quick() else (30000, 20000, 6000, 24000, 600)
+        n_flt = 120 if ctx.quick() else 3000
         cid = len(cases) + 1
         for _ in range(n_raw):
             gen.append(gen_direct(rng, cid)); cid += 1
@@ -684,6 +787,8 @@ def run(ctx):
         for i in range(n_e2e):
             stream = ["ast", "ast", "values", "values", "circ", "noncanon", "ast", "ast", "values", "noncanon"][i % 10]
             gen.append(gen_e2e(rng, cid, stream)); cid += 1
+        for _ in range(n_flt):
+            gen.append(gen_float_case(rng, cid)); cid += 1
         for _ in range(n_sc):
             gen.append({"id": cid, "kind": "strconv", "s": hx(gen_strconv_text(rng)), "stream": "strconv"}); cid += 1
         for _ in range(n_fmt):
@@ -705,8 +810,8 @@ def run(ctx):
         cases = cases + gen
     elif gen:
         ctx.notes.append("generated streams skipped: a corpus witness hangs on this tree")
-    ctx.log("cases=%d evaluations=%d nontrivial=%d strict=%d infragment=%d mismatches=%d violations=%d" % (
-        len(cases), cnt["evals"], cnt["nt"], cnt["strict"], cnt["infrag"], len(M), len(V)))
+    ctx.log("cases=%d evaluations=%d nontrivial=%d strict=%d infragment=%d float-eform=%d mismatches=%d violations=%d" % (
+        len(cases), cnt["evals"], cnt["nt"], cnt["strict"], cnt["infrag"], cnt["eform"], len(M), len(V)))
     cmap = {c["id"]: c for c in cases}
 
     def size_of(i):
@@ -810,9 +915,13 @@ def run(ctx):
         "nontrivial_cases": cnt["nt"],
         "denotational_oracle_applied": cnt["strict"],
         "strconv_cases_in_fragment": cnt["infrag"],
+        "callback_variant": {"float_splice_probe": splice, "D-C17g_applied": ctx.float_fix},
+        "e2e_cases_splicing_a_float64_in_exponent_range": cnt["eform"],
     }
     return vlib.decide(ctx, static_ok, by_id, M, V, cov, classify_known=classify_known, widen=widen, shrink=shrink,
                        assumptions=["Configure.Get is represented by a path->value table computed by the generator from its own tree "
                                     "(lower-case keys), validated against the real Configure on the `format` stream of this run",
                                     "regexp (RE2) on the two placeholder patterns is re-implemented as a byte scanner and compared",
-                                    "substitution budget of the repaired code: 1024 (boundary cases 1023/1024/1025 in the corpus)"])
+                                    "substitution budget of the repaired code: 1024 (boundary cases 1023/1024/1025 in the corpus)",
+                                    "the variant of the ${} callback (float64 spliced by strconv2.FormatAny or, after D-C17g, in plain digits) "
+                                    "is decided by one probe run per check run; a third behaviour fails the check"])
